@@ -175,7 +175,7 @@ def run(prog, an, rep):
         'keyed by the PR author), REG (settings inter-validation).')
     rep.assume('the arithmetic of the counts (set sizes, author-as-leader '
                'increment, unanimity equality) is not evaluated')
-    rep.run_rules(prog, an, [gate, formulas, shapes, helpers,
+    rep.run_rules(prog, an, [gate, formulas, shapes, counted_sets, helpers,
                              settings_validation])
 
 
@@ -434,12 +434,74 @@ def direct_leaves(d, e):
     return out
 
 
-def statement_shapes(an, f):
-    """Rename-insensitive shape of every binding statement: (direct leaves,
-    transitive leaves incl. control dependence)."""
-    d = Deps(an, f)
+def _is_update_of(stmt, name):
+    """stmt reads `name` only to produce its next value (x += ..,
+    x.add(..), x = f(x))."""
+    if isinstance(stmt, ast.AugAssign):
+        return isinstance(stmt.target, ast.Name) and stmt.target.id == name
+    if isinstance(stmt, ast.Assign):
+        return any(isinstance(t, ast.Name) and t.id == name
+                   for t in stmt.targets)
+    if isinstance(stmt, ast.Expr) and isinstance(stmt.value, ast.Call) and \
+            isinstance(stmt.value.func, ast.Attribute) and \
+            isinstance(stmt.value.func.value, ast.Name):
+        return stmt.value.func.value.id == name
+    return False
+
+
+def final_definitions(an, f, d):
+    """The binding statements whose value is read by something other than
+    the next update of the same variable: `x = a; x -= b` has one final
+    definition (the second), however the computation is cut into
+    statements."""
+    c = an.cfg(f)
     out = []
-    for n in walk_local(f.node, include_root=False):
+    uses = {}
+    for x in walk_local(f.node, include_root=False):
+        if isinstance(x, ast.Name) and isinstance(x.ctx, ast.Load) and \
+                x.id in d.defs():
+            st = d._stmt_of(x)
+            uses.setdefault(x.id, []).append((x, st))
+    for name, dl in d.defs().items():
+        nodes = {id(st): set(d._node_ids(st)) for st, _ in dl}
+        for st, _ in dl:
+            if isinstance(st, (ast.For, ast.AsyncFor, ast.With,
+                               ast.AsyncWith)):
+                continue
+            barrier = set()
+            for k, v in nodes.items():
+                if k != id(st):
+                    barrier |= v
+            starts = [c.done_node[id(st)]] if id(st) in c.done_node \
+                else list(nodes[id(st)])
+            final = False
+            for u, ust in uses.get(name, ()):
+                if ust is st or (isinstance(ust, ast.stmt) and
+                                 _is_update_of(ust, name) and
+                                 not isinstance(ust, (ast.If, ast.While))):
+                    continue
+                uids = set(d._use_ids(u))
+                for s0 in starts:
+                    if any(c.path(s0, t, removed=barrier - {t},
+                                  use_exc=False) is not None
+                           for t in uids):
+                        final = True
+                        break
+                if final:
+                    break
+            if final:
+                out.append(st)
+    return out
+
+
+def statement_shapes(an, f):
+    """Rename- and granularity-insensitive shapes of the values the
+    decision is computed from: for every final definition (see above), the
+    transitive inputs of its value and the inputs of the conditions it sits
+    under."""
+    d = Deps(an, f)
+    out = set()
+    for n in final_definitions(an, f, d):
         vals = None
         if isinstance(n, (ast.Assign, ast.AnnAssign)) and \
                 getattr(n, 'value', None) is not None:
@@ -453,14 +515,12 @@ def statement_shapes(an, f):
             vals = list(n.value.args) + [n.value.func.value]
         if vals is None:
             continue
-        direct, trans = set(), set()
+        trans = set()
         for v in vals:
-            direct |= direct_leaves(d, v)
             trans |= d.leaves(v, at=n, with_control=False)
         ctl = local_control(d, n)
-        if direct or trans or ctl:
-            out.append((tuple(sorted(direct)), tuple(sorted(trans)),
-                        tuple(sorted(ctl))))
+        if trans or ctl:
+            out.add((tuple(sorted(trans)), tuple(sorted(ctl))))
     return sorted(out)
 
 
@@ -476,28 +536,28 @@ def local_control(d, stmt):
     return out
 
 
-# (direct inputs of the statement, transitive inputs of its value, inputs of
-# the conditions it is nested under) for every binding statement of
-# check_approvals on the pinned tree; rename-insensitive, confirmed by
-# reading.  Each must still be present (extra statements are fine).
-STATEMENT_SHAPES = [((),
-  ('bypass_leader_approval()',
+# (transitive inputs of the value, inputs of the conditions it is bound
+# under) for every final definition of check_approvals on the pinned tree;
+# insensitive to names and to how the computation is cut into statements,
+# confirmed by reading.  Each must still be present (more are fine).
+STATEMENT_SHAPES = [(('bypass_author_approval()',
+   'pull_request.author',
+   'pull_request.get_approvals()',
+   'settings.approve',
+   'settings.need_author_approval'),
+  ()),
+ (('bypass_author_approval()',
+   'settings.approve',
+   'settings.need_author_approval'),
+  ()),
+ (('bypass_leader_approval()',
    'pull_request.author',
    'pull_request.get_approvals()',
    'settings.approve',
    'settings.project_leaders',
    'settings.required_leader_approvals'),
   ()),
- ((),
-  ('bypass_leader_approval()',
-   'pull_request.author',
-   'pull_request.get_approvals()',
-   'settings.approve',
-   'settings.project_leaders',
-   'settings.required_leader_approvals'),
-  ()),
- ((),
-  ('bypass_leader_approval()',
+ (('bypass_leader_approval()',
    'pull_request.author',
    'pull_request.get_approvals()',
    'settings.approve',
@@ -507,84 +567,92 @@ STATEMENT_SHAPES = [((),
    'pull_request.get_approvals()',
    'settings.approve',
    'settings.project_leaders')),
- ((),
-  ('bypass_peer_approval()',
+ (('bypass_peer_approval()',
    'pull_request.author',
    'pull_request.get_approvals()',
    'settings.approve',
    'settings.required_peer_approvals'),
   ()),
- ((),
-  ('bypass_peer_approval()',
-   'pull_request.author',
-   'pull_request.get_approvals()',
-   'settings.approve',
-   'settings.required_peer_approvals'),
-  ()),
- ((),
-  ('pull_request.author',
+ (('pull_request.author', 'pull_request.get_approvals()'),
+  ('settings.approve',)),
+ (('pull_request.author',
    'pull_request.get_approvals()',
    'pull_request.get_participants()',
    'settings.approve',
    'settings.robot'),
   ()),
- ((), ('pull_request.get_participants()', 'settings.robot'), ()),
- ((), ('settings.required_leader_approvals',), ('bypass_leader_approval()',)),
- ((), ('settings.required_peer_approvals',), ('bypass_peer_approval()',)),
- (('bypass_author_approval()',
-   'settings.approve',
-   'settings.need_author_approval'),
-  ('bypass_author_approval()',
-   'settings.approve',
-   'settings.need_author_approval'),
+ (('pull_request.author', 'pull_request.get_approvals()', 'settings.approve'),
   ()),
- (('pull_request.author',),
-  ('bypass_author_approval()',
-   'pull_request.author',
-   'pull_request.get_approvals()',
-   'settings.approve',
-   'settings.need_author_approval'),
-  ()),
- (('pull_request.author',),
-  ('pull_request.author', 'pull_request.get_approvals()', 'settings.approve'),
-  ()),
- # approvals.add(author) under `if settings.approve`: the guard is kept apart
- (('pull_request.author',),
-  ('pull_request.author', 'pull_request.get_approvals()'),
-  ('settings.approve',)),
- (('pull_request.get_approvals()',), ('pull_request.get_approvals()',), ()),
- (('pull_request.get_change_requests()',),
-  ('pull_request.get_change_requests()',),
-  ()),
- (('pull_request.get_participants()',),
-  ('pull_request.get_participants()',),
-  ()),
- (('settings.project_leaders',), ('settings.project_leaders',), ()),
- (('settings.required_leader_approvals',),
-  ('settings.required_leader_approvals',),
-  ()),
- (('settings.required_peer_approvals',),
-  ('settings.required_peer_approvals',),
-  ()),
- (('settings.robot',), ('settings.robot',), ()),
- (('settings.unanimity',), ('settings.unanimity',), ())]
+ (('pull_request.get_approvals()',), ()),
+ (('pull_request.get_change_requests()',), ()),
+ (('pull_request.get_participants()', 'settings.robot'), ()),
+ (('settings.project_leaders',), ()),
+ (('settings.required_leader_approvals',), ()),
+ (('settings.required_leader_approvals',), ('bypass_leader_approval()',)),
+ (('settings.required_peer_approvals',), ()),
+ (('settings.required_peer_approvals',), ('bypass_peer_approval()',)),
+ (('settings.robot',), ()),
+ (('settings.unanimity',), ())]
+
+
+def counted_sets(prog, an, rep):
+    """What is counted: peers are the approvers other than the author;
+    leaders are the approvers among the project leaders; unanimity compares
+    the approvers with the participants, the robot left out of both."""
+    from ..rules import canon, stores_to
+    R = 'C04.ARG.counted-sets'
+    f = need_func(an, GWF + '.check_approvals')
+    job = f.params[0]
+    author = job + '.pull_request.author'
+    robot = job + '.settings.robot'
+    # the approvals set: the local bound to set(<job>.pull_request.
+    # get_approvals())
+    appr = [n.targets[0].id for n in walk_local(f.node, include_root=False)
+            if isinstance(n, ast.Assign) and len(n.targets) == 1 and
+            isinstance(n.targets[0], ast.Name) and
+            isinstance(n.value, ast.Call) and
+            canon(f, n.value) == 'set(%s.pull_request.get_approvals())' % job]
+    if len(appr) != 1:
+        raise AnalysisError('anchor-missing approvals set in ' + f.qname)
+    # (canon writes the set out where the local is read)
+    A = 'set(%s.pull_request.get_approvals())' % job
+    counted = []
+    for x in walk_local(f.node, include_root=False):
+        if isinstance(x, ast.Call) and isinstance(x.func, ast.Name) and \
+                x.func.id == 'len' and len(x.args) == 1:
+            t = canon(f, x.args[0])
+            if A in t or any(isinstance(n, ast.Name) and n.id == appr[0]
+                             for n in ast.walk(x.args[0])):
+                counted.append((x, t))
+    leaders = [t for _, t in counted if 'intersection' in t or '&' in t]
+    peers = [(x, t) for x, t in counted if t not in leaders]
+    rep.floor('C04 counted approval sets', len(counted), 2)
+    rep.evaluated()
+    rep.check(len(peers) == 1 and peers[0][1] == '%s - {%s}' % (A, author),
+              R, f.qname + ': peers are the approvers other than the author',
+              f.where(peers[0][0] if peers else None), 'the peer count is '
+              'taken over %s' % [t for _, t in peers])
+    rep.evaluated()
+    rep.check(len(leaders) == 1 and leaders[0].startswith(
+        A + '.intersection(') or leaders[0].startswith(A + ' & '), R,
+        f.qname + ': leaders are counted among the approvers', f.where(),
+        'the leader count is taken over %s' % leaders)
 
 
 def shapes(prog, an, rep):
     from collections import Counter
     f = need_func(an, GWF + '.check_approvals')
-    found = Counter(statement_shapes(an, f))
-    want = Counter(STATEMENT_SHAPES)
+    found = set(statement_shapes(an, f))
+    want = set(STATEMENT_SHAPES)
     missing = want - found
-    rep.evaluated(sum(want.values()))
-    for sh, n in sorted(missing.items()):
-        extra = [x for x in (found - want)]
+    rep.evaluated(len(want))
+    for sh in sorted(missing):
+        extra = sorted(found - want)
         rep.violation('C04.DEP.statement-inputs', f.qname +
-                      ': statement with inputs %s' % (sh,), f.where(),
+                      ': value with inputs %s' % (sh,), f.where(),
                       'a computation step of the approval decision lost or '
-                      'changed its inputs: expected (direct=%s, value=%s, '
-                      'guard=%s); unmatched statements now: %s' %
-                      (sh[0], sh[1], sh[2], extra[:3]))
+                      'changed its inputs: expected (value=%s, guard=%s); '
+                      'unmatched values now: %s' % (sh[0], sh[1], extra[:3]))
     if not missing:
         rep.ok('C04.DEP.statement-inputs', f.qname + ': %d computation '
-               'steps keep their inputs' % sum(want.values()), f.where())
+               'steps keep their inputs' % len(want), f.where())
